@@ -119,8 +119,8 @@ fn set_values(
             (RV::Bytes(x), 0) => {
                 // value_ptr must be non-null even for an empty value
                 let buf: Box<[u8]> = if x.is_empty() { vec![0u8] } else { x.clone() }.into_boxed_slice();
-                let p = buf.as_ptr();
                 keep.push(buf);
+                let p = keep.last().unwrap().as_ptr();
                 ffi::wirefilter_add_bytes_value_to_execution_context(ctx, np, nl, p, x.len())
             }
             (RV::Ip(IpAddr::V4(a)), 0) => ffi::wirefilter_add_ipv4_value_to_execution_context(ctx, np, nl, &a.octets()),
@@ -414,8 +414,8 @@ pub fn run(run: &Run) {
                         }
                         b
                     };
-                    let (p, n) = (b.as_ptr(), b.len());
                     keep.push(b);
+                    let (p, n) = (keep.last().unwrap().as_ptr(), keep.last().unwrap().len());
                     ("add_bytes_value", ffi::wirefilter_add_bytes_value_to_execution_context(&mut ctx, np, nl, p, n), Some(RType::Bytes))
                 }
                 3 => ("add_ipv4_value", ffi::wirefilter_add_ipv4_value_to_execution_context(&mut ctx, np, nl, &[10, 0, 0, r.next() as u8]), Some(RType::Ip)),
